@@ -130,6 +130,11 @@ def send_cell(P, A):
         if ch == 'p':
             body.append(E('p', text=c0, tail=c1))
             exp_body.append(('p', (), c0, c1, ()))
+        elif ch == 'm':
+            # mixed content: inline empty elements without any tail, one with a blank tail, text around them
+            m_ = E('p', E('tab'), E('tab'), E('em', text=c1, tail=' '), E('pi'), text=c0)
+            body.append(m_)
+            exp_body.append(B.snap(m_))
         elif ch == 'i':
             it = rich_item('si%d' % j, c0, c1)
             exp = B.snap(it)
@@ -325,7 +330,12 @@ def replace_cell(P, A):
             E('mosExternalMetadata', T('mosSchema', c1), E('mosPayload', T('Owner', c1)))]
     kids += [E('story', T('storyID', n), T('storySlug', c1), E('item', T('itemID', c1), x=c1), E('p', text=c1, tail=c1))
              for n in new_ids]
-    msg = M.ro_replace(kids)
+    if P.get('base_attrs'):
+        # attributes on the two base elements themselves: the running order's go, the message's arrive
+        B.rc_of(ro).set('origin', 'first-transmission')
+        msg = M.ro_replace(kids, version=c1, changed='yes')
+    else:
+        msg = M.ro_replace(kids)
     sent = B.snap(msg.base_tag)
     msg_before = B.snap(msg.xml)
     env = [B.snap(c) for c in ro.xml if c.tag != 'roCreate']
